@@ -147,10 +147,24 @@ def body_core(case, ctx):
         raise Violation(f"normalisation:{kind}", f"{case['family']} n={case['n']} [{lc}]: integral of the estimated density = {total!r}")
     # ---- cdf is the integral of the pdf
     g = rngctl.rng(case["seed"], 12)
-    q = np.sort(np.quantile(sample, g.uniform(0.01, 0.99, size=4)))
+    q = np.quantile(sample, g.uniform(0.01, 0.99, size=4))
+    # ... and in the tails: inside the widest gaps between the outermost sample points, and beyond the sample on both sides
+    srt = np.sort(sample)
+    tails = []
+    for part in (srt[:12], srt[-12:]):
+        gaps = np.diff(part)
+        for j in np.argsort(gaps)[-2:]:
+            tails.append(part[j] + g.uniform(0.2, 0.8) * gaps[j])
+    width = float(est.h) if isinstance(est, GaussianKDE) else sd
+    tails += [srt[0] - g.uniform(0.5, 3.0) * width, srt[-1] + g.uniform(0.5, 3.0) * width]
+    q = np.unique(np.concatenate([q, np.clip(tails, lo, hi)]))
+    in_gap = int(np.sum((q < srt[11]) | (q > srt[-12])))
+    ctx.event(f"cdf-tail-points={in_gap}")
     with np.errstate(all="ignore"):
         cv = np.asarray(est.cdf(q.copy()), dtype=float)
-    for i in range(3):
+    if cv.shape != q.shape:
+        raise Violation(f"cdf-shape:{kind}", f"cdf of {q.shape} points has shape {cv.shape}")
+    for i in range(q.size - 1):
         want = gl_integral(est, edges, a=q[i], b=q[i + 1])
         got = cv[i + 1] - cv[i]
         ctx.ratio(f"cdf:{kind}", abs(got - want), TOL["mass"])
